@@ -213,7 +213,8 @@ pub fn build_world(r: &mut Rng, cfg: &WorldCfg) -> Built {
             spec.data_gap_pages = r.range(1, 3);
         }
         let img = elfgen::build(&spec);
-        let path = format!("/usr/lib/libsim{}.so.{}.{}", i, r.below(4), r.below(30));
+        // the third library's path carries a character outside the basic multilingual plane
+        let path = format!("/usr/lib/libsim{}{}.so.{}.{}", i, if i == 2 { "-\u{1D4B3}" } else { "" }, r.below(4), r.below(30));
         let base = LIB_BASE + i as u64 * 0x100_0000;
         libs.push((path, base, img));
     }
@@ -420,6 +421,7 @@ pub fn build_world(r: &mut Rng, cfg: &WorldCfg) -> Built {
             zombie: false,
             stop_latency_ns: 0,
             comm_fault: None,
+            blocked_until_ns: 0,
         });
     }
 
@@ -482,6 +484,7 @@ pub fn build_world(r: &mut Rng, cfg: &WorldCfg) -> Built {
     for i in 0..cfg.nfds {
         let (target, mode) = match i % 5 {
             0 => ("/dev/pts/0".to_string(), 0o020620u32),
+            1 if i % 10 == 6 => (format!("/var/log/\u{1F600}-{}.log", i), 0o100644),
             1 => (format!("/var/log/app-{}.log", i), 0o100644),
             2 => (format!("pipe:[{}]", 30000 + i), 0o010600),
             3 => (format!("socket:[{}]", 40000 + i), 0o140777),
@@ -568,10 +571,22 @@ impl Built {
     }
 }
 
+/// Make the name the linker list holds for the first library invalid UTF-8 (a library loaded
+/// through an oddly named symlink: the mapped path in /proc/pid/maps stays as it is).
+pub fn spoil_first_lib_name(b: &mut Built, cfg: &WorldCfg) -> bool {
+    if !cfg.link_map || cfg.nlibs == 0 || cfg.names_at_end {
+        return false;
+    }
+    let addr = HEAP_BASE + 0x40 + (1 + cfg.nlibs as u64) * 40 + 1;
+    b.world.plants.push((addr, u64::from_le_bytes(*b"/usr/\xff\xfe/")));
+    true
+}
+
 pub fn default_dest() -> DestPlan {
     DestPlan {
         start: 0,
         pre_len: 0,
+        origin: 0,
         fx: Vec::new(),
     }
 }
